@@ -8,6 +8,7 @@ import (
 	"fmt"
 	"os"
 	"strings"
+	"time"
 
 	"github.com/robfig/soy/ast"
 	"github.com/robfig/soy/soyhtml"
@@ -89,6 +90,8 @@ var c14unitSeq int
 // c14Prepare compiles the bundle, generates every file under every
 // configuration with the real code and with the model, compares them, and
 // returns the units to hand to node.
+var c14T = map[string]time.Duration{}
+
 func c14Prepare(e *env, b *c14Bundle) []*c14Unit {
 	key := fmt.Sprint(b.Files, b.Globals, b.Translate, b.Trans)
 	reg, err := jsCompile(b)
@@ -128,7 +131,9 @@ func c14Prepare(e *env, b *c14Bundle) []*c14Unit {
 		genErr := false
 		for _, sf := range reg.SoyFiles {
 			real, rerr := jsWrite(sf, c.es6, mb)
+			t0 := time.Now()
 			cls, mtext, raw := jsModel(e, sf, c.es6, trc)
+			c14T["model-gen"] += time.Since(t0)
 			e.res.Count(key+u.cfg()+sf.Name, true, "generated:"+strings.SplitN(b.Stream, ":", 2)[0])
 			cs := c14CaseOf(b, u.cfg(), map[string]interface{}{"file": sf.Name})
 			switch {
@@ -162,7 +167,9 @@ func c14Prepare(e *env, b *c14Bundle) []*c14Unit {
 				}
 				u.node.Files = append(u.node.Files, jsNodeFile{Name: sf.Name, Code: real, Templates: templatesOf(sf)})
 				if cls == "ok" {
+					t1 := time.Now()
 					c14Wf(e, b, u.cfg(), sf, c.es6, trc, real)
+					c14T["model-wf"] += time.Since(t1)
 				}
 			}
 		}
@@ -205,12 +212,7 @@ func c14Prepare(e *env, b *c14Bundle) []*c14Unit {
 	return units
 }
 
-func c14Node(e *env, units []*c14Unit, tag string) {
-	var nu []jsNodeUnit
-	for _, u := range units {
-		nu = append(nu, u.node)
-	}
-	res, err := jsRunNode(nu, tag, "C14")
+func c14NodeEval(e *env, units []*c14Unit, tag string, res []jsNodeUnitRes, err error) {
 	if err != nil {
 		e.res.Fail(hx.Violation{Kind: "mismatch", What: "node could not be run", Case: "node batch " + tag, Observed: err.Error()}, "")
 		return
